@@ -22,6 +22,8 @@ ITEMS = {
     "impl": "impl TrImpl for X { fn a(deps: &impl ::core::any::Any) {} }",
     # concrete dependency: the expansion contains a nested entrait invocation on the generated trait (two records)
     "fnconc": "pub async fn f(deps: &Cfg, a: i64) -> i64 { a }",
+    # a function without any parameter: `no_deps` (in every spelling of "true") is what makes it acceptable
+    "fn0": "pub fn f() -> i64 { 1 }",
 }
 BOOLS = ["no_deps", "export", "unimock", "mockall"]
 FORMS = ["absent", "bare", "true", "false"]
@@ -154,6 +156,8 @@ def enumerate_states(tier):
     for i in fn_invocations("fn"):
         if i["attr"].count(",") <= 2:
             states.append(dict(i, item="fnconc"))
+        if i["family"] == "forms" and i["attr"].count(",") <= 2 and i["variant"] == "entrait" and not i["feature"]:
+            states.append(dict(i, item="fn0"))
     for i in trait_invocations():
         states.append(dict(i, item="trait"))
     states += target_invocations()
@@ -238,8 +242,12 @@ def evaluate(states, report, tier):
             rep = rep_of[(s["item"], s["key_sem"])]
             rrec = outputs[rep["key"]]
             observed = "class:%s:%d" % (s["item"], hash(engine.tt_strict(rec["output_tt"])) & 0xffffffff)
-            if is_rejection(rec):
+            if is_rejection(rec) and s["item"] != "fn0":
                 problems.append(("valid-options-rejected", rec["output"][:200]))
+            elif s["item"] == "fn0" and rrec is not None and is_rejection(rec) != is_rejection(rrec):
+                problems.append(("accepted-vs-rejected-within-equivalent-options", "#[%s(%s)] %s, the equivalent #[%s(%s)] %s"
+                                 % (s["variant"], s["attr"], "rejected" if is_rejection(rec) else "accepted", rep["variant"], rep["attr"],
+                                    "rejected" if is_rejection(rrec) else "accepted")))
             elif rrec is not None and "output_tt" in rrec and engine.tt_strict(rec["output_tt"]) != engine.tt_strict(rrec["output_tt"]):
                 problems.append(("differs-from-equivalent:" + s["family"],
                                  "#[%s(%s)] (feature %s) expands differently from the equivalent #[%s(%s)] (feature %s)\n%s\n  vs\n%s"
